@@ -191,7 +191,10 @@ V4_BAD_MASK_TEXT = ["/33", "/128", "/", "/+8", "/ 8", "/8 ", "/0_8", "/-0", "/8/
 V6_ADDRS = ["::", "::1", "1::", "ffff:ffff:ffff:ffff:ffff:ffff:ffff:ffff", "2001:db8::1", "2001:db8:0:0:1::1",
             "fe80::1:0:0:1", "::ffff:1.2.3.4", "::ffff:255.255.255.255", "::ffff:0.0.0.0", "::1.2.3.4", "::0.0.3.4",
             "0:0:0:0:0:fffe:102:304", "0:0:0:0:1:ffff:102:304", "1:2:3:4:5:6:7:8", "1:0:0:2:0:0:0:3", "0:1:0:1:0:1:0:1",
-            "8000::", "::8000:0:0:0", "7fff:ffff:ffff:ffff:8000::"]
+            "8000::", "::8000:0:0:0", "7fff:ffff:ffff:ffff:8000::",
+            # look like IPv4-mapped in part only: marker in the fifth group, non-zero first 80 bits, doubled marker
+            "::ffff:0:102:304", "0:0:0:0:ffff::1", "::ffff:0:0:1", "::ffff:ffff:102:304", "2001:db8::ffff:102:304",
+            "::1:0:ffff:102:304", "ffff::102:304", "::fffe:102:304"]
 V6_MASK_TEXT = ["", "/0", "/1", "/7", "/8", "/9", "/63", "/64", "/65", "/96", "/120", "/127", "/128", "/064", "/0128", "/00"]
 V6_BAD_MASK_TEXT = ["/129", "/256", "/", "/+64", "/ 64", "/64 ", "/6_4", "/-0", "/-1", "/64/64", "/0x40", "/\xb2"]
 MAC_BYTES = [0, 1, 9, 10, 15, 16, 17, 0x7f, 0x80, 0x9a, 0xa9, 0xaf, 0xfa, 0xff]
@@ -322,6 +325,20 @@ class C16(Check):
                         for raise_ in (False, True):
                             mal = (1, "ValueError") if raise_ else (0, v)
                             yield self.mk(fam, fn, raise_, v, base, ref1=mal, tag="unicode-digits")
+        # histories: the SAME string through every function, repeatedly and in several orders, within one
+        # process (the transforms are pure: module-level state such as a parse cache must not show)
+        hist_strings = {"v4": ["192.168.77.129/20", "10.1.2.3/9", "010.001.002.003/09", "172.16.5.6", "1.2.3.4/33"],
+                        "ip": ["192.168.77.129/20", "::ffff:1.2.3.4", "2001:db8:85a3::8a2e:370:7334/61", "2001:db8::1"],
+                        "v6": ["2001:db8:85a3::8a2e:370:7334/61", "::1/127", "ffff::ffff/9"],
+                        "mac": ["0:1a:2B:3:4:5", "AA-BB-CC-DD-EE-FF"]}
+        for fam, strs in hist_strings.items():
+            orders = list(itertools.permutations(FNS[fam]))
+            if len(orders) > 6:
+                orders = [orders[0], orders[-1]] + rng.sample(orders[1:-1], 4 if q else 12)
+            for st in strs:
+                for order in orders:
+                    for fn in list(order) + list(order):
+                        yield self.mk(fam, fn, False, st, st, tag="history")
         # ================= IPv4 (and the generic module on IPv4 text) =================
         addrs = [[0, 0, 0, 0], [255, 255, 255, 255], [192, 168, 0, 1], [10, 0, 0, 255], [127, 128, 199, 200],
                  [1, 9, 10, 99], [100, 249, 250, 254], [128, 0, 0, 0], [0, 0, 0, 1], [172, 16, 254, 3]]
